@@ -195,6 +195,31 @@ def hash_literals(fn):
     return sorted(lits) + sorted(sh) + sorted(named)
 
 
+def _legacy_empty(expr, theta_arg, sa, literals):
+    """(ok, text): expr - read through single-assignment locals - is the conjunction of exactly `N == 0` (N a local) and
+    `T == MAX_THETA` where T is the variable handed over as theta"""
+    MAX_THETA = 9223372036854775807
+
+    def expand(e, depth=0):
+        e0 = strip_all(e)
+        if isinstance(e0, dict) and e0.get("k") == "Ref" and e0.get("d") in sa and depth < 4 and (e0.get("t") or "").replace("const ", "") == "bool":
+            return expand(sa[e0["d"]], depth + 1)
+        if isinstance(e0, dict) and e0.get("k") == "Bin" and e0.get("op") == "&&":
+            return expand(e0["l"], depth) + expand(e0["r"], depth)
+        return [e0]
+    lits = expand(expr)
+    t = " && ".join(txt(l) for l in lits)
+    th = strip_all(theta_arg)
+    zero, mx = [], []
+    for l in lits:
+        ec = eq_const(l)
+        if ec and ec[2] == "==" and ec[1] == 0 and strip_all(ec[0]).get("k") == "Ref" and strip_all(ec[0]).get("dk") == "local":
+            zero.append(l)
+        elif ec and ec[2] == "==" and ec[1] == MAX_THETA and strip_all(ec[0]).get("k") == "Ref" and th.get("k") == "Ref" and strip_all(ec[0]).get("d") == th.get("d"):
+            mx.append(l)
+    return (len(lits) == 2 and len(zero) == 1 and len(mx) == 1), t
+
+
 def documented_semantics(facts):
     """layout facts stated in the documentation that are not constants:
     (1) serial-version-1/2 theta images carry no usable empty flag: empty <=> no entries AND theta == MAX_THETA;
@@ -204,35 +229,57 @@ def documented_semantics(facts):
     for pat, fn in sorted(fns.items()):
         rect = fn.get("rect") or ""
         if rect == "datasketches::compact_theta_sketch_alloc" and fn["name"] == "deserialize_v1":
-            defs = [v for v in _decls(fn) if v["n"] == "is_empty" and v.get("init") is not None]
-            t = txt(defs[0]["init"]).replace(" ", "") if defs else "?"
-            ok = t in (C("((num_entries==0)&&(theta==MAX_THETA))"), C("((num_entries==0)&&(theta==theta_constants::MAX_THETA))"))
+            # the emptiness handed to the constructor (first argument; through whatever locals) is exactly
+            # `count == 0 && theta == MAX_THETA`, theta being the value handed over as theta (fourth argument)
+            from astu import single_assignment_locals, literals
+            sa = single_assignment_locals(fn)
+            cons = []
+            walk(fn["body"], lambda n: cons.append(n) if n.get("k") == "Return" and isinstance(strip_all(n.get("e") or {}), dict) and strip_all(n["e"]).get("k") == "Construct" and len(strip_all(n["e"]).get("args", [])) == 5 else None)
+            ok, t = bool(cons), "?"
+            for r in cons:
+                args = strip_all(r["e"])["args"]
+                good, t = _legacy_empty(args[0], args[3], sa, literals)
+                ok = ok and good
             out.append(ob("layout.semantics", "compact_theta_sketch_alloc::deserialize_v1:legacy-empty-rule", fn["pat"], "discharged" if ok else "violated",
                           "v1 image is empty iff num_entries == 0 && theta == MAX_THETA" if ok else "v1 emptiness is decided by `%s`: a non-empty sketch with zero retained entries and theta < 1 (e.g. a disjoint intersection) would be read as empty and then ignored by unions" % t, fn["qname"]))
         if rect == "datasketches::compact_theta_sketch_parser" and fn["name"] == "parse":
-            sw = []
-            walk(fn["body"], lambda n: sw.append(n) if n.get("k") == "Switch" else None)
-            case1 = None
-            if sw:
-                cur = None
-                for c in stmts_of(sw[0]["b"]):
-                    if c.get("k") == "Case":
-                        cur = strip(c["v"]).get("v")
-                        if cur == 1:
-                            case1 = c
-            if case1 is not None:
-                defs = []
-                walk(case1, lambda n: [defs.append(v) for v in n.get("vars", []) if v.get("n") == "is_empty" and v.get("init") is not None] if n.get("k") == "Decl" else None)
-                rets = []
-                walk(case1, lambda n: rets.append(n) if n.get("k") == "If" else None)
-                t = txt(defs[0]["init"]).replace(" ", "") if defs else (txt(rets[0]["c"]).replace(" ", "") if rets else "?")
-                ok = t in (C("((num_entries==0)&&(theta==MAX_THETA))"), C("((num_entries==0)&&(theta==theta_constants::MAX_THETA))"))
-                out.append(ob("layout.semantics", "compact_theta_sketch_parser::parse:v1-legacy-empty-rule", case1.get("loc", fn["pat"]), "discharged" if ok else "violated",
+            # serial version 1: a result flagged empty (first element true) is returned exactly under `count == 0 && theta == MAX_THETA`
+            # (beyond the version dispatch), theta being the fifth element of that result
+            from astu import single_assignment_locals, literals
+            sa = single_assignment_locals(fn)
+            rets = []
+            walk(fn["body"], lambda n: rets.append(n) if n.get("k") == "Return" and isinstance(strip_all(n.get("e") or {}), dict) and strip_all(n["e"]).get("k") == "InitList" and len(strip_all(n["e"]).get("args", [])) >= 5 else None)
+            v1 = []
+            for r in rets:
+                ls = reach(fn["body"], r)
+                ver = [eq_const(l) for l in ls if eq_const(l) and eq_const(l)[1] == 1 and eq_const(l)[2] == "==" and "version" in txt(eq_const(l)[0]).lower()]
+                if ver:
+                    v1.append((r, [l for l in ls if not (eq_const(l) and eq_const(l)[1] == 1 and "version" in txt(eq_const(l)[0]).lower())]))
+            if v1:
+                ok, t, where = True, "?", None
+                flagged = [(r, ls) for r, ls in v1 if strip_all(strip_all(r["e"])["args"][0]).get("k") == "Bool" and strip_all(strip_all(r["e"])["args"][0]).get("b")]
+                if not flagged:
+                    # emptiness passed as an expression
+                    for r, ls in v1:
+                        args = strip_all(r["e"])["args"]
+                        good, t = _legacy_empty(args[0], args[4], sa, literals)
+                        ok = ok and good
+                        where = r
+                for r, ls in flagged:
+                    args = strip_all(r["e"])["args"]
+                    conj = None
+                    for l in ls:
+                        conj = l if conj is None else {"k": "Bin", "op": "&&", "l": conj, "r": l}
+                    good, t = _legacy_empty(conj, args[4], sa, literals) if conj is not None else (False, "unconditionally")
+                    ok = ok and good
+                    where = r
+                out.append(ob("layout.semantics", "compact_theta_sketch_parser::parse:v1-legacy-empty-rule", (where or {}).get("loc", fn["pat"]), "discharged" if ok else "violated",
                               "v1 image is empty iff num_entries == 0 && theta == MAX_THETA" if ok else "v1 emptiness is decided by `%s` (must be num_entries == 0 && theta == MAX_THETA)" % t, fn["qname"]))
         if rect == "datasketches::compact_theta_sketch_alloc" and fn["kind"] == "ctor" and not fn.get("special") and len(fn["params"]) == 5:
             ini = [i for i in fn.get("inits", []) if i.get("field") == "is_ordered_"]
-            t = txt(ini[0]["e"]).replace(" ", "") if ini else "?"
-            ok = t in (C("(is_ordered||(entries.size()<=1))"), C("((entries.size()<=1)||is_ordered)"))
+            penv = {pm["d"]: {"k": "Ref", "n": "p%d" % i, "d": None, "dk": "synthetic"} for i, pm in enumerate(fn["params"]) if "d" in pm}
+            t = C(txt(ini[0]["e"], penv).replace(" ", "")) if ini else "?"     # parameters by position
+            ok = t in (C("(p1||(p4.size()<=1))"), C("((p4.size()<=1)||p1)"), C("(p1||(2>p4.size()))"), C("((2>p4.size())||p1)"))
             out.append(ob("layout.semantics", "compact_theta_sketch_alloc::ctor(entries):single-item-ordered", fn["pat"], "discharged" if ok else "violated",
                           "is_ordered_ = is_ordered || entries.size() <= 1: single-item images carry the ORDERED flag (documented pattern 0x1A)" if ok else "is_ordered_ is initialised with `%s`: a single-item result requested unordered is written without the ORDERED flag, which readers following the documented single-item pattern (flags & 0x1F == 0x1A) take for empty" % t, fn["qname"]))
     return out
@@ -284,7 +331,7 @@ def ast_digest(fn):
     return hashlib.sha256(" ".join(sorted(toks)).encode()).hexdigest()[:20], len(toks)
 
 
-HASH_DIGEST_FUNCS = ["MurmurHash3_x64_128", "fmix64", "XXHash64::hash", "XXHash64::add", "XXHash64::process", "XXHash64::processSingle", "XXHash64::rotateLeft", "compute_seed_hash", "compute_hash", "canonical_double"]
+HASH_DIGEST_FUNCS = ["MurmurHash3_x64_128", "fmix64", "getblock64", "XXHash64::hash", "XXHash64::add", "XXHash64::process", "XXHash64::processSingle", "XXHash64::rotateLeft", "compute_seed_hash", "compute_hash", "canonical_double"]
 
 
 def hash_digest_rule(facts):
@@ -455,11 +502,11 @@ def estimation_state_written(facts):
                 return None
             return ev(e["a"] if c else e["e"], env, decls, depth + 1)
         if k == "Ref" and e.get("dk") == "local" and e.get("d") in decls and decls[e["d"]].get("init") is not None:
-            if decls[e["d"]]["n"] == "preamble_longs" and "PL" in env:
+            if e["d"] == env.get("PLd") and "PL" in env:
                 return env["PL"]
             return ev(decls[e["d"]]["init"], env, decls, depth + 1)
-        if k == "Ref" and e.get("dk") == "param" and e.get("n") == "compressed":
-            return env.get("compressed")
+        if k == "Ref" and e.get("dk") == "param" and "compressed" in env and (e.get("t") or "").replace("const ", "") == "bool":
+            return env.get("compressed")      # the one boolean parameter of get_preamble_longs(compressed)
         if "v" in e and k in ("Int", "Cast", "Bool"):
             return e["v"] if k != "Bool" else bool(e.get("b", e.get("v")))
         if k == "Bool":
@@ -487,7 +534,20 @@ def estimation_state_written(facts):
         if fn["name"] != "serialize" or not any(x in fn["qname"] for x in ("compact_theta_sketch_alloc", "compact_tuple_sketch")) or "array" in fn["qname"]:
             continue
         decls = local_decls(fn)
-        pl = [v for v in decls.values() if v["n"] == "preamble_longs"]
+        # the preamble-longs value is the first value written to the image (whatever the local is called)
+        from triggers import _loc_key
+        wr = []
+        walk(fn["body"], lambda x: wr.append(x) if x.get("k") == "Call" and x.get("cname") in ("write", "copy_to_mem") else None)
+        # `*ptr++ = v;` is a write too
+        walk(fn["body"], lambda x: wr.append({"k": "Store", "loc": x.get("loc"), "args": [x.get("r")]}) if x.get("k") == "Assign" and x.get("op") == "=" and strip_all(x.get("l") or {}).get("k") == "Un" and strip_all(x["l"]).get("op") == "*" else None)
+        wr.sort(key=_loc_key)
+        pl = []
+        if wr:
+            for a in wr[0].get("args", []):
+                a = strip_all(a)
+                if isinstance(a, dict) and a.get("k") == "Ref" and a.get("dk") == "local" and a.get("d") in decls and decls[a["d"]].get("init") is not None and "stream" not in (a.get("t") or ""):
+                    pl = [decls[a["d"]]]
+                    break
         if not pl:
             continue
         # guard of the theta write
@@ -517,7 +577,7 @@ def estimation_state_written(facts):
                 break
             if e_ and plv != 3:
                 bad_pl.append("is_estimation_mode()=true, is_empty()=%s, one entry=%s: preamble_longs = %s" % (str(z_).lower(), str(s_).lower(), plv))
-            g = ev(guards[0], dict(env, PL=plv), decls)
+            g = ev(guards[0], dict(env, PL=plv, PLd=pl[0].get("d")), decls)
             if g is None:
                 bad_g.append("guard `%s` not evaluable" % txt(guards[0]))
                 break
